@@ -2,6 +2,7 @@ package sim
 
 import (
 	"bytes"
+	"encoding/gob"
 	"fmt"
 	"math"
 	"math/big"
@@ -342,6 +343,40 @@ func scenarioC19(c *RunCtx) {
 			c.LibSoft("Experiment.Read", func() { rerr = used.Read(bytes.NewReader(buf.Bytes())) })
 			if rerr == nil {
 				checkAggregates(c, used, func() string { return ctx() + " (record read into a previously used experiment object)" })
+			}
+		}
+	}
+	// One trial record, saved with Trial.Encode and read with Trial.Decode into a trial object that was used before (it
+	// holds another trial, solved with other winner sizes, whose winner statistics were queried): same rule.
+	if len(exp.Trials) > 0 && t.Chance("reusedTrial", 1, 3) {
+		c.Count("probe.trial_decoded_into_used_object")
+		src := &exp.Trials[t.Draw("reusedTrial.which", len(exp.Trials))]
+		var buf bytes.Buffer
+		var werr error
+		c.LibSoft("Trial.Encode", func() { werr = src.Encode(gob.NewEncoder(&buf)) })
+		if werr == nil {
+			usedExp := &experiment.Experiment{Id: 98, Name: "used-trial", Trials: make(experiment.Trials, 1)}
+			used := &usedExp.Trials[0]
+			used.Id = 77
+			used.Generations = append(experiment.Generations(nil), src.Generations...)
+			if len(used.Generations) == 0 {
+				used.Generations = experiment.Generations{experiment.Generation{Id: 0}}
+			}
+			g0 := &used.Generations[0]
+			g0.Solved, g0.WinnerNodes, g0.WinnerGenes, g0.WinnerEvals, g0.Diversity = true, 141, 143, 14700, 117
+			c.LibSoft("accessors of the earlier content", func() {
+				used.WinnerStatistics()
+				used.Solved()
+				usedExp.AvgWinnerStatistics()
+			})
+			var rerr error
+			c.LibSoft("Trial.Decode", func() { rerr = used.Decode(gob.NewDecoder(bytes.NewReader(buf.Bytes()))) })
+			if rerr == nil {
+				checkAggregates(c, usedExp, func() string {
+					return ctx() + " (one trial record read with Trial.Decode into a previously used trial object)"
+				})
+			} else {
+				c.Count("observe.trial_decode_error")
 			}
 		}
 	}
